@@ -23,27 +23,66 @@ def worker_init():
     Perm = P
 
 
+def _used(q):
+    """issue a few searches with the object (fills whatever it memoises)"""
+    try:
+        list(q.occurrences_in(Perm((1, 0, 2))))
+        Perm((0, 2, 1, 3)).contains(q)
+        list(q.occurrences_in(Perm((0, 1)), [0] * len(q), [0, 1]))
+        g = q.occurrences_in(Perm((2, 0, 3, 1, 4)))
+        next(g, None)          # a listing that is started and abandoned
+    except Exception:
+        pass
+    return q
+
+
+def mkperm(seq, salt=0):
+    """the permutation `seq` as an object with a past: fresh, already used in other searches, or derived by
+    a symmetry / an edit from an object that was used (deterministic in (seq, salt))"""
+    seq = tuple(seq)
+    k = (sum((i + 3) * (v + 1) for i, v in enumerate(seq)) + len(seq) + salt) % 7
+    p = Perm(seq)
+    if k == 0:
+        return p
+    if k == 1:
+        return _used(p)
+    try:
+        if k == 2:
+            q = _used(p.complement()).complement()
+        elif k == 3:
+            q = _used(p.reverse()).reverse()
+        elif k == 4:
+            q = _used(p.inverse()).inverse()
+        elif k == 5:
+            q = _used(p.rotate(1)).rotate(-1)
+        else:
+            q = _used(p.insert(0, 0)).remove(0) if len(p) < 12 else _used(p)
+    except Exception:
+        return p
+    return q if tuple(q) == seq else p
+
+
 def impl(op, a):
     if op in ("occ", "occspec", "occdq"):
-        return guarded(lambda: fseqs(Perm(pseq(a[0])).occurrences_in(Perm(pseq(a[1])))))
+        return guarded(lambda: fseqs(mkperm(pseq(a[0])).occurrences_in(mkperm(pseq(a[1]), 1))))
     if op == "occof":
         return guarded(lambda: fseqs(Perm(pseq(a[1])).occurrences_of(Perm(pseq(a[0])))))
     if op in ("occc", "occcspec"):
-        return guarded(lambda: fseqs(Perm(pseq(a[0])).occurrences_in(Perm(pseq(a[1])), pseq(a[2]), pseq(a[3]))))
+        return guarded(lambda: fseqs(mkperm(pseq(a[0])).occurrences_in(mkperm(pseq(a[1]), 1), pseq(a[2]), pseq(a[3]))))
     if op == "contains":
-        return guarded(lambda: fbool(Perm(pseq(a[0])).contains(*[Perm(p) for p in pseqs(a[1])])))
+        return guarded(lambda: fbool(mkperm(pseq(a[0]), 1).contains(*[mkperm(p) for p in pseqs(a[1])])))
     if op == "avoids":
-        return guarded(lambda: fbool(Perm(pseq(a[0])).avoids(*[Perm(p) for p in pseqs(a[1])])))
+        return guarded(lambda: fbool(mkperm(pseq(a[0]), 1).avoids(*[mkperm(p) for p in pseqs(a[1])])))
     if op == "avoidsset":
         return guarded(lambda: fbool(Perm(pseq(a[0])).avoids_set(iter([Perm(p) for p in pseqs(a[1])]))))
     if op == "in":
-        return guarded(lambda: fbool(Perm(pseq(a[0])) in Perm(pseq(a[1]))))
+        return guarded(lambda: fbool(mkperm(pseq(a[0])) in mkperm(pseq(a[1]), 1)))
     if op == "containedin":
         return guarded(lambda: fbool(Perm(pseq(a[0])).contained_in(*[Perm(p) for p in pseqs(a[1])])))
     if op == "avoidedby":
         return guarded(lambda: fbool(Perm(pseq(a[0])).avoided_by(*[Perm(p) for p in pseqs(a[1])])))
     if op == "count":
-        return guarded(lambda: str(Perm(pseq(a[0])).count_occurrences_in(Perm(pseq(a[1])))))
+        return guarded(lambda: str(mkperm(pseq(a[0])).count_occurrences_in(mkperm(pseq(a[1]), 1))))
     if op == "countof":
         return guarded(lambda: str(Perm(pseq(a[1])).count_occurrences_of(Perm(pseq(a[0])))))
     if op in ("lfc", "lfcspec"):
